@@ -360,6 +360,7 @@ func (n *Nodis) BLPop(timeout time.Duration, keys ...string) (string, []byte) {
 			})
 			return key, results[0]
 		}
+		verifPoint("bpop.beforeRegister")
 		n.addBlockKey(key, c)
 	}
 	select {
@@ -388,6 +389,7 @@ func (n *Nodis) BRPop(timeout time.Duration, keys ...string) (string, []byte) {
 			})
 			return key, results[0]
 		}
+		verifPoint("bpop.beforeRegister")
 		n.addBlockKey(key, c)
 	}
 	select {
